@@ -131,7 +131,7 @@ def evaluate(case, obs):
             for kind, x, tps, ok in tl:
                 if kind == "add" and ok and tp in tps:
                     # the acknowledgement must have been delivered before the write
-                    delivered = x.reply is not None and x.t_end is not None and x.t_end <= a.t_written + 1e-9 \
+                    delivered = x.delivered and x.reply is not None and x.t_end is not None and x.t_end <= a.t_written + 1e-9 \
                         and _reply_ok(x, tp)
                     if delivered and x.t <= a.t_written:
                         opened = True
@@ -168,7 +168,7 @@ def evaluate(case, obs):
                     continue
                 k2 = (tuple(b["tp"]), b["base_seq"])
                 first_written.setdefault(k2, a.t_written)
-                if a.reply is not None and a.t_end is not None and _produce_ok(a, tuple(b["tp"])):
+                if a.delivered and a.reply is not None and a.t_end is not None and _produce_ok(a, tuple(b["tp"])):
                     acked[k2] = min(acked.get(k2, 1e18), a.t_end)
         for k2, tw in first_written.items():
             nxt = [x for x in ends if x.t_written >= tw]
